@@ -35,6 +35,46 @@ CHECKS = {
                 text='bounded contract verification of convert/_convert for integer and fixed-point type pairs on symbolic values: value preserved when it fits, '
                      'rounding to a neighbour for narrowing fractions, no wrap in either field for any mask allowed by the bound arithmetic',
                 note=B_NOTE + '; type pairs enumerated', technique='modular symbolic execution of the real functions against contracts (bounded), z3'),
+    'C07': dict(engine='symx', category='other', design_ref='DESIGN.md §5 C07',
+                text='routing contracts of transfer/input/output evaluated with all m parties running the real coroutines in one process over every enumerated '
+                     'sender set, receiver set, graph (dict/pairs), int argument and threshold t..2t; found and led to the repair of transfer with an int sender',
+                note=B_NOTE, technique='bounded contract evaluation with all parties executing the real code on a ghost network'),
+    'C09': dict(engine='symx', category='other', design_ref='DESIGN.md §5 C09',
+                text='partial: per-primitive and per-program send/receive label balance, at-most-once labels per connection and program-counter/level bookkeeping on a ghost '
+                     'network with all parties running the real code; global label uniqueness over a whole run (hash collisions) is assumed, not decided',
+                note=B_NOTE + '; _hop collision-freeness assumed', technique='bounded contract evaluation on a ghost network (all parties, real code)'),
+    'C11': dict(engine='symx', category='other', design_ref='DESIGN.md §5 C11',
+                text='degree-t sharing decided exactly on symbolic shares for input, multiplication+_reshare and _randoms (PRSS on/off); concrete m-party runs of ~150 operations '
+                     'check the sharing degree at every output/_reshare call and of every returned secure value; value-mode degree ghost covers all values in between',
+                note=B_NOTE, technique='modular symbolic execution with all parties (polynomial normal forms) + ghost checks in concrete runs (bounded)'),
+    'C12': dict(engine='pyvc+lean+native-enum', category='other', design_ref='DESIGN.md §5 C12',
+                text='deductive verification (unbounded) of the real random_split, _recombination_vector and recombine against spec functions (Horner form, Lagrange '
+                     'numerator/denominator products, weighted sums), connected to "any t+1 shares recombine" by Lean/Mathlib lemmas; extension/binary fields and the '
+                     'end-to-end statement by bounded exhaustive enumeration',
+                note='prime fields proved; field elements modelled by reduced integer values with operator contracts; extension fields only bounded; partial correctness; '
+                     'hand correspondence SMT spec <-> Lean statement', technique='deductive verification (AST -> VCs -> z3/cvc5) + Lean lemmas + bounded enumeration'),
+    'C13': dict(engine='pyvc+lean+native-enum', category='other', design_ref='DESIGN.md §5 C13',
+                text='randomness discipline of random_split proved for all inputs (t draws from randbelow(field.order) per secret, fresh block per secret, draw k = coefficient of '
+                     'X^(t-k)); Lean lemma gives the bijection coefficients <-> t shares; exhaustive distribution of coalition views over all dealer randomness for small fields',
+                note='distribution of secrets.randbelow trusted; uniformity for large fields via the lemma, not enumerated', technique='deductive verification + Lean lemma + exhaustive enumeration of dealer randomness'),
+    'C14': dict(engine='symx', category='other', design_ref='DESIGN.md §5 C14',
+                text='ghost dealer log with all parties running the real code on symbolic shares: every random_split call from _distribute/_reshare uses (rt.threshold, m); every dealt '
+                     'share on the wire carries a fresh coefficient with unit factor (t >= 1)', note=B_NOTE + '; "degree exactly t" read as "t uniform coefficients"',
+                technique='modular symbolic execution with all parties (bounded in (m,t))'),
+    'C15': dict(engine='pyvc+lean+native-enum', category='other', design_ref='DESIGN.md §5 C15',
+                text='share formulas of pseudorandom_share / pseudorandom_share_zero proved for all m, t, n, keys and PRF outputs; Lean lemma turns them into consistency/degree/secret; '
+                     '_f_S_i and the all-parties statement by bounded enumeration incl. extension fields',
+                note='dict iteration as sequence in unspecified order; _f_S_i only bounded', technique='deductive verification + Lean lemma + bounded enumeration'),
+    'C16': dict(engine='symx', category='other', design_ref='DESIGN.md §5 C16',
+                text='real key generation, client handshake and server parsing run for all parties and pairs under several chunkings and connection orders; key placement postcondition over the m key dicts',
+                note=B_NOTE, technique='bounded contract evaluation of the real handshake code (all parties)'),
+    'C17': dict(engine='pyvc+native-enum', category='other', design_ref='DESIGN.md §5 C17',
+                text='PRF.__init__ byte-length contract proved for all keys/bounds; determinism of __call__ by a syntactic frame proof over its AST; range, counts and prefix consistency '
+                     'evaluated on the real function over listed keys/bounds/inputs', note='__call__ outside engine A\'s subset (generator expressions, XOF): bounded; shake_128 determinism trusted',
+                technique='deductive verification + syntactic frame proof + bounded enumeration'),
+    'C19': dict(engine='symx', category='other', design_ref='DESIGN.md §5 C19',
+                text='ghost-network postconditions with all parties running the real output/transfer: no message to a non-receiver, non-receivers return None',
+                note=B_NOTE + '; SecureFloat outputs and group elements not covered', technique='bounded contract evaluation on a ghost network (all parties, real code)'),
     'C20': dict(engine='native-enum', category='other', design_ref='DESIGN.md §5 C20',
                 text='executable contracts of every field operator (binary, reflected, in-place, int/polynomial mixing, **, shifts, ==/hash, field axioms) evaluated '
                      'exhaustively on the real classes for all elements of the listed prime, binary and odd-characteristic extension fields against independent table arithmetic',
